@@ -1156,3 +1156,96 @@ def rule_arg_ld(mod, rep, floor=12):
             rep.check(bad is None, "ARG-LD", "%s#lda@%s" % (f.name, fmt_path(sorted(f.addr_paths(ld))[0], f)), "the leading-dimension test is reached whenever the earlier tests pass",
                       "the leading-dimension test at %s is only evaluated under the condition at %s, whose other edge continues without an error code: an undersized leading "
                       "dimension is accepted there" % (c.loc, bad.loc if bad else ""), c.loc, f.name)
+
+
+# ---------------------------------------------------------------------------------------------------------------------------------
+# ETREE-SCAN (C10 C16): the elimination-tree builders look at every entry of every column
+# ---------------------------------------------------------------------------------------------------------------------------------
+def rule_etree_scan(mod, rep, names=("sp_coletree", "sp_symetree")):
+    rep.rule("ETREE-SCAN", "sp_coletree / sp_symetree: every counted loop (over the columns, and over the entries acolst[col] .. acolend[col] of one column) is left only "
+             "through its own loop test: Liu's algorithm links the current column with the subtree of EVERY earlier row/column that appears in it; entries are not sorted by "
+             "first column, so leaving the scan at the first entry that needs no link (break instead of continue) misses links whenever a 'new' row is stored before an "
+             "'old' one (any non-natural ordering)", floor=6)
+    for nm in names:
+        f = mod.funcs.get(nm)
+        if f is None or not f.blocks:
+            rep.brk("ANALYSIS-BROKEN ETREE-SCAN: %s not found" % nm)
+            continue
+        rep.scope([f.name])
+        n = 0
+        for h, body in f.loops():
+            lb = loop_bound(f, h, body)
+            if not lb or lb[0].bb.id != h:
+                continue
+            # counted: the induction phi advances by one
+            n += 1
+            exits = [(b, s.id) for b in body for s in f.blocks[b].succ if s.id not in body]
+            extra = [(b, s) for (b, s) in exits if b != h]
+            rets = [i for b in body for i in f.blocks[b].insts if i.op == "ret"]
+            where = f.blocks[extra[0][0]].insts[-1].loc if extra else (rets[0].loc if rets else "")
+            rep.check(not extra and not rets, "ETREE-SCAN", "%s#loop@%d" % (f.name, n), "single exit through the loop test",
+                      "the scan can be left early (break/return at %s): the remaining entries of the column are never linked into the tree" % where, f.blocks[h].insts[0].loc, f.name)
+        if n == 0:
+            rep.brk("ANALYSIS-BROKEN ETREE-SCAN: no counted loop in %s" % nm)
+
+
+# ---------------------------------------------------------------------------------------------------------------------------------
+# ORDER-STEP (C10): COLAMD reserves as many order positions for a column as that column is thick
+# ---------------------------------------------------------------------------------------------------------------------------------
+def rule_order_step(mod, rep, names=("find_ordering",)):
+    rep.rule("ORDER-STEP", "colamd find_ordering(): after `Col[c].shared2.order = k` the order counter advances by the thickness of that very column: the value added to the "
+             "stored k (the update that feeds the counter of the next column) is loaded from Col[c].shared1 with the same index c - a thickness left over in a local from an "
+             "earlier loop reserves the wrong number of positions whenever super-columns of different sizes meet, and the returned permutation has duplicates and holes", floor=1)
+    for nm in names:
+        f = mod.funcs.get(nm) or mod.funcs.get(nm.replace("find_ordering", "find_ordering_l"))
+        if f is None or not f.blocks:
+            rep.brk("ANALYSIS-BROKEN ORDER-STEP: %s not found" % nm)
+            continue
+        rep.scope([f.name])
+        n = 0
+        for s in f.insts():
+            if s.op != "store" or not any(len(p) == 3 and p[1] == ("i",) and p[2][0] == "f" and p[2][2] == "shared2" and "Col" in p[2][1] for p in f.addr_paths(s)):
+                continue
+            k = strip_casts(f, s.ops[0])
+            if k[0] != "v" or f.inst[k[1]].op != "phi":
+                continue            # only stores of the running order counter (a loop-carried value)
+            col = gep_index_first(f, s.ops[1])
+            # the update of k in the same block
+            upd = [x for x in s.bb.insts if x.op == "add" and any(same_val(strip_casts(f, o), k) for o in x.ops)]
+            if not upd:
+                continue
+            n += 1
+            x = upd[0]
+            other = [o for o in x.ops if not same_val(strip_casts(f, o), k)]
+            ok = False
+            if other:
+                o = strip_casts(f, other[0])
+                if o[0] == "v" and f.inst[o[1]].op == "load":
+                    L = f.inst[o[1]]
+                    if any(len(p) == 3 and p[2][0] == "f" and p[2][2] == "shared1" for p in f.addr_paths(L)) and same_val(gep_index_first(f, L.ops[0]), col):
+                        ok = True
+                elif o[0] == "c" and o[1] == 1:
+                    ok = True       # a column known to be of thickness one
+            rep.check(ok, "ORDER-STEP", "%s#order@%d" % (f.name, n), "k advances by the thickness of the column just ordered",
+                      "after Col[c].shared2.order = k at %s the counter advances by a value that is not Col[c].shared1.thickness of the same column c" % s.loc, x.loc, f.name)
+        if n == 0:
+            rep.brk("ANALYSIS-BROKEN ORDER-STEP: no `order = k; k += thickness` site found in %s" % f.name)
+
+
+def gep_index_first(f, addr):
+    """the first non-constant index of the GEP chain producing this address (the array subscript of Col[c].field)"""
+    o = addr
+    found = None
+    while o[0] == "v":
+        ins = f.inst[o[1]]
+        if ins.op == "bitcast":
+            o = ins.ops[0]
+            continue
+        if ins.op == "getelementptr":
+            for st in ins.gep:
+                if st["k"] == "idx" and st["v"][0] != "c":
+                    found = strip_casts(f, st["v"])
+            o = ins.ops[0]
+            continue
+        break
+    return found
